@@ -210,7 +210,7 @@ def run_batch(prop, tier, seed):
     pool = cf.ProcessPoolExecutor(max_workers=workers, mp_context=ctx)
     try:
         while True:
-            while not stop_submitting and len(pending) < workers * 2 and next_idx < max_runs:
+            while not stop_submitting and len(pending) < workers + 2 and next_idx < max_runs:
                 hi = min(max_runs, next_idx + chunk)
                 try:
                     fut = pool.submit(_chunk, (seed, next_idx, hi, tier))
